@@ -111,3 +111,60 @@ def split_path(path):
         return None
     parts.append(cur)
     return parts
+
+
+def read_sql_standard(lit):
+    """standard SQL string literal (postgres, sqlite, mssql, oracle): '...' with '' for one quote; returns the value
+    if `lit` is exactly one complete literal, else None"""
+    n = len(lit)
+    if n < 2 or lit[0] != "'":
+        return None
+    out, i = [], 1
+    while i < n:
+        c = lit[i]
+        if c == "'":
+            if i + 1 < n and lit[i + 1] == "'":
+                out.append("'")
+                i += 2
+            else:
+                return ''.join(out) if i == n - 1 else None
+        else:
+            out.append(c)
+            i += 1
+    return None
+
+
+_MYSQL_ESC = {'0': '\0', 'b': '\b', 'n': '\n', 'r': '\r', 't': '\t', 'Z': '\x1a'}
+
+
+def read_sql_mysql(lit):
+    """MySQL string literal (default sql_mode): '' is one quote; back-slash escapes: \\0 \\b \\n \\r \\t \\Z, \\% and \\_ keep
+    the back-slash, any other \\x is x"""
+    n = len(lit)
+    if n < 2 or lit[0] != "'":
+        return None
+    out, i = [], 1
+    while i < n:
+        c = lit[i]
+        if c == '\\':
+            if i + 1 >= n:
+                return None
+            d = lit[i + 1]
+            if d in _MYSQL_ESC:
+                out.append(_MYSQL_ESC[d])
+            elif d == '%' or d == '_':
+                out.append('\\')
+                out.append(d)
+            else:
+                out.append(d)
+            i += 2
+        elif c == "'":
+            if i + 1 < n and lit[i + 1] == "'":
+                out.append("'")
+                i += 2
+            else:
+                return ''.join(out) if i == n - 1 else None
+        else:
+            out.append(c)
+            i += 1
+    return None
